@@ -269,6 +269,11 @@ func (ut UnitType) convertUnit(value int64, fromUnitStr, toUnitStr string) (floa
 	if toUnit == nil {
 		return v / ut.DefaultUnit.Factor, ut.DefaultUnit.CanonicalName, true
 	}
+	if toUnit.Factor == fromUnit.Factor {
+		// Same unit: avoid the rounding of multiplying and dividing by a
+		// factor that is not a power of two.
+		return float64(value), toUnit.CanonicalName, true
+	}
 	return v / toUnit.Factor, toUnit.CanonicalName, true
 }
 
